@@ -94,7 +94,8 @@ def _tree(path, value):
     return out
 
 
-OPS = ("set_ok", "set_bad", "load_with", "load_without", "reset", "reset_twice", "mutate_reset")
+OPS = ("set_ok", "set_bad", "load_with", "load_without", "reset", "reset_twice", "mutate_reset", "set_bad_map",
+       "section_then_reset")
 
 
 def _step(fi: int, op_i: int, pre_set: bool, other_set: bool, x: int, y: int) -> bool:
@@ -142,6 +143,35 @@ def _step(fi: int, op_i: int, pre_set: bool, other_set: bool, x: int, y: int) ->
         expect[path] = (_ok_obs(path, x), True)
     elif op == "load_without":
         cfg.load_tree({"i2": 1} if False else {})  # a tree that does not mention the field (nor its parent map)
+    elif op == "set_bad_map":
+        # a map for the enclosing section whose LAST entry is rejected: the section and everything in it stay as they were
+        if path not in ("sub.b", "ct.v"):
+            skip("sections only")
+        section, leaf = path.split(".")
+        try:
+            if section == "sub":
+                cfg.sub = {"c": 41, "b": BADV[path]}
+            else:
+                cfg.ct = {"v": BADV[path]}
+            hold("op", False, "invalid map accepted")
+        except ValidationError:
+            pass
+        hold("op", is_value_defined(cfg, section) is False, "a rejected map made the section user-defined")
+    elif op == "section_then_reset":
+        # the section as a whole becomes user-defined through a map, then it is reset
+        if path not in ("sub.b", "ct.v"):
+            skip("sections only")
+        section, leaf = path.split(".")
+        if section == "sub":
+            cfg.sub = {"b": x, "c": x}
+        else:
+            cfg.ct = {"v": x}
+        hold("op", is_value_defined(cfg, section) is True, "assigned section not user-defined")
+        reset_value(cfg, section)
+        hold("op", is_value_defined(cfg, section) is False, "reset section still reported as user-defined")
+        expect[path] = (DEFAULTS[path], False)
+        if section == "sub":
+            expect["sub.c"] = (DEFAULTS["sub.c"], False)
     elif op == "mutate_reset":
         # in-place mutation of the current (default or assigned) container value, then reset, then a fresh config
         if path not in ("lst", "dct", "raw", "rawd"):
@@ -185,12 +215,12 @@ def _mk(fi: int):
                      "(value, user-defined) machine; every other field untouched" % FIELDS[fi])
     def ob(op_i: int, pre_set: bool, other_set: bool, x: int, y: int) -> bool:
         """
-        pre: 0 <= op_i < 7 and 0 <= x <= 1000 and 0 <= y <= 1000
+        pre: 0 <= op_i < 9 and 0 <= x <= 1000 and 0 <= y <= 1000
         post: _
         """
         if not (pre_set or other_set) and y:
             skip("y unused")
-        if OPS[op_i if 0 <= op_i < 7 else 0] not in ("set_ok", "load_with") and x:
+        if OPS[op_i if 0 <= op_i < 9 else 0] not in ("set_ok", "load_with", "section_then_reset") and x:
             skip("x unused")
         return _step(fi, op_i, pre_set, other_set, x, y)
 
